@@ -170,9 +170,15 @@ func genInv(r *prng.R, i int) cliInv {
 			case 1:
 				mb.Kind = "dir"
 			case 2:
-				if len(mb.Bytes) > 40 {
-					mb.Bytes = append([]byte(nil), mb.Bytes...)
+				// damage that is certain to be detected: a flipped payload byte under a CRC64
+				// (.xz written by the library), a truncation for .lzma (which has no check)
+				mb.Foreign = false
+				mb.Bytes = compressWith(f, mb.Plain)
+				if f == "xz" && len(mb.Bytes) > 60 {
 					mb.Bytes[len(mb.Bytes)/2] ^= 0x41
+					mb.Kind = "corrupt-" + f
+				} else if f == "lzma" && len(mb.Bytes) > 30 {
+					mb.Bytes = mb.Bytes[:len(mb.Bytes)-7]
 					mb.Kind = "corrupt-" + f
 				}
 			case 3:
@@ -443,7 +449,7 @@ func checkC15(c *ev.Ctx) {
 	defer os.RemoveAll(base)
 	n := 1200
 	if thorough(c) {
-		n = 6000
+		n = 20000
 	}
 	c.MinEvals(int64(n / 2))
 	c.Set("xz_cli", xzcli())
